@@ -3,13 +3,13 @@ package props
 import (
 	"bytes"
 	"fmt"
-	"regexp"
-	"runtime"
-	"strings"
 	"hash/fnv"
 	"math/rand"
 	"os"
+	"regexp"
+	"runtime"
 	"strconv"
+	"strings"
 	"sync"
 	"testing"
 	"testing/synctest"
@@ -97,9 +97,9 @@ func TestProp(t *testing.T) {
 	runOne := func(i int) {
 		emit(out, fmt.Sprintf("START %d", i))
 		rec := sim.NewRec(prop)
+		curRec = rec
 		rng := rand.New(rand.NewSource(caseSeed(seed, prop, i)))
-		body := func(t *testing.T) {
-			def.Run(t, rng, rec, tier, i)
+		finish := func() {
 			if rec.Poisoned() {
 				// the bubble cannot be wound down (see Rec.Violate): report and abandon the process;
 				// the driver restarts the remaining cases of this worker in a fresh one
@@ -107,31 +107,13 @@ func TestProp(t *testing.T) {
 				emit(out, fmt.Sprintf("POISONED %d", i))
 				os.Exit(0)
 			}
-			if def.Bubble {
-				// goroutines of the library that are still alive although the case closed every socket
-				// and client: report them instead of letting the bubble die with a bare deadlock panic
-				synctest.Wait()
-				if left := bubbleCensus(); len(left) > 0 {
-					rec.Violate("goroutines-left-blocked", firstFrame(left[0]), "%d goroutine(s) of pion/turn are still blocked after the case shut everything down: %s", len(left), strings.Join(left, " || "))
-				}
-			}
 		}
+		curFinish = finish
 		if def.Bubble {
-			func() {
-				defer func() {
-					if r := recover(); r != nil {
-						if msg := fmt.Sprint(r); strings.Contains(msg, "blocked goroutines remain") {
-							rec.Ev("bubble-ended-with-blocked-goroutines")
-
-							return
-						}
-						panic(r)
-					}
-				}()
-				synctest.Test(t, body)
-			}()
+			runBubble(t, rec, func(t *testing.T) { def.Run(t, rng, rec, tier, i) })
 		} else {
-			body(t)
+			def.Run(t, rng, rec, tier, i)
+			finish()
 		}
 		wantSample := i < 3 || os.Getenv("VERIF_CASE") != ""
 		emit(out, "RESULT "+rec.Result(i, seed, wantSample).JSON())
@@ -207,3 +189,35 @@ func firstFrame(s string) string {
 
 	return s
 }
+
+var curFinish func()
+
+// runBubble runs body inside a synctest bubble. After body returns, library goroutines that are
+// still alive although the case closed everything are reported (instead of letting the bubble die
+// with a bare deadlock panic), and a poisoned case abandons the process.
+func runBubble(t *testing.T, rec *sim.Rec, body func(t *testing.T)) {
+	defer func() {
+		if r := recover(); r != nil {
+			if msg := fmt.Sprint(r); strings.Contains(msg, "blocked goroutines remain") {
+				rec.Ev("bubble-ended-with-blocked-goroutines")
+
+				return
+			}
+			panic(r)
+		}
+	}()
+	synctest.Test(t, func(t *testing.T) {
+		body(t)
+		if curFinish != nil {
+			curFinish()
+		}
+		synctest.Wait()
+		if left := bubbleCensus(); len(left) > 0 {
+			rec.Violate("goroutines-left-blocked", firstFrame(left[0]), "%d goroutine(s) of pion/turn are still blocked after the case shut everything down: %s", len(left), strings.Join(left, " || "))
+		}
+	})
+}
+
+func inBubble(t *testing.T, body func(t *testing.T)) { runBubble(t, curRec, body) }
+
+var curRec *sim.Rec
